@@ -366,20 +366,34 @@ def r4(ctx, lib):
     if rd is None:
         ctx.missing(rule, 'fn run_dedupe (binary)')
         return
-    tw = rd.calls(r'::take_while$')
-    mp = rd.calls(r'FallibleIterator::map$|::map$')
-    # the closure that records the error
+    # the closure that records the error: it builds an Err and writes it through a captured variable (whatever its name)
     rec = None
+    rec_name = None
     for cp in bn.closures_of('run_dedupe'):
         cb = bn.body(cp)
-        if any(n == 'result' for _, n in cb.upvars.items()) and aggregates(cb, 'result::Result', 'Err'):
-            rec = cb
+        if cb.upvars and aggregates(cb, 'result::Result', 'Err'):
+            for bi_, s_ in aggregates(cb, 'result::Result', 'Err'):
+                holders = forward_locals(cb, s_['p'][0]) | {s_['p'][0]}
+                for blk_ in cb.blocks:
+                    for st_ in blk_['stmts']:
+                        # `*captured = Err(e)`: the destination is reached through the closure environment (_1)
+                        if st_['rv']['k'] == 'use' and op_local(st_['rv']['op']) in holders and st_['p'][1]:
+                            base = st_['p'][0]
+                            places_ = [st_['p']] if base == 1 else [op_place(d_[3]['rv']['op']) for d_ in cb.defs().get(base, []) if d_[2] == 'assign' and d_[3]['rv']['k'] == 'use' and op_place(d_[3]['rv']['op'])]
+                            for pl_ in places_:
+                                if pl_[0] == 1:
+                                    idx = [e[1] for e in pl_[1] if isinstance(e, list) and e[0] == 'F']
+                                    if idx and idx[0] in cb.upvars:
+                                        rec, rec_name = cb, cb.upvars[idx[0]]
+    # the stream ends at the first recorded error: take_while(is_some) after the recording map, or the recording closure is a map_while itself
+    tw = rd.calls(r'::take_while$|::map_while$')
     ok = bool(tw) and rec is not None
-    ctx.check(ok, rule, 'bin::run_dedupe|stop-on-error', (tw[0].where() if tw else rd.where()), 'the first Err is recorded and take_while(is_some) ends the stream', 'errors from the report reader do not stop processing')
+    ctx.check(ok, rule, 'bin::run_dedupe|stop-on-error', (tw[0].where() if tw else rd.where()), 'the first Err is recorded (in `%s`) and %s ends the stream' % (rec_name, tw[0].path.rsplit('::', 1)[-1] if tw else '?'),
+              'errors from the report reader do not stop processing')
     # the recorded result is what the function returns
     rs = backslice(rd, [0])
     named = {rd.local_name(l) for l in rs.locals}
-    ctx.check('result' in named, rule, 'bin::run_dedupe|error-returned', rd.where(), 'run_dedupe returns the recorded read error', 'the recorded read error is not returned')
+    ctx.check(rec_name is not None and rec_name in named, rule, 'bin::run_dedupe|error-returned', rd.where(), 'run_dedupe returns the recorded read error', 'the recorded read error is not returned')
 
 
 def r5(ctx, lib):
